@@ -165,7 +165,8 @@ Section IntervalModel.
         | false, false => b_empty B                                  (* position 0 *)
         end
       else out0 in
-    {| iv := out; nanf := nanf a || nanf b || is_inf (lower a) || is_inf (upper a) || (bpos && bneg) |}.
+    {| iv := out; nanf := nanf a || nanf b || is_inf (lower a) || is_inf (upper a)
+               || is_inf (lower b) || is_inf (upper b) || (bpos && bneg) |}.
 
   Definition inanfill (a b : ival) : ival :=
     if nanf a then {| iv := b_hull B (iv a) (iv b); nanf := nanf b |}
